@@ -1138,8 +1138,10 @@ static uint32_t round_it(int negative, uint32_t round_value, uint32_t check_valu
  */
 static uintmax_t round_to_int(uintmax_t round_value, uint32_t *digits, int units_digit, uint32_t *lsd) {
     uint32_t *work_digit = digits + units_digit + 1;
+    /* round_it() needs the parity of the value being rounded in order to break ties toward the even neighbor */
+    uint32_t low_bit = (uint32_t) (round_value & 1);
 
-    return round_value + ((lsd < work_digit) ? 0 : round_it(0, 0, *work_digit, work_digit, lsd));
+    return round_value + ((lsd < work_digit) ? 0 : (round_it(0, low_bit, *work_digit, work_digit, lsd) - low_bit));
 }
 
 static char *to_digits(double d, int scale) {
